@@ -179,6 +179,8 @@ def _tridonic(run, repo, world, folder):
     # frame bytes of observed reports: ForwardFrame(n, raw_frame) uses the
     # 4-byte field right-aligned
     o, bfn = _m(world, Q, "_bus_watch")
+    from ..drv import expand_method
+    bfn = expand_method(world, c, bfn, aliases="params")
     t = ast.unparse(bfn)
     run.ob("R-WIRE-TRIDONIC", Q + "._bus_watch#decode",
            "dali.frame.ForwardFrame(16, raw_frame)" in t and
